@@ -133,7 +133,8 @@ theorem total_sfIns2 {T} (l : List SfIn2) (ms : Mid) (R : List (Kind × Id)) (hc
   rw [hcl]; exact ⟨_, rfl⟩
 
 theorem total_ress2 {T} (l : List Resolution2) (ms : Mid) (R : List (Kind × Id)) (hc : Ctx T ms.base) (hI : Inv T ms)
-    (hs : ∀ r ∈ l, LiveFc2 T ms r.parent ∧ resNewOk r) (hn : (l.map (·.parent.id)).Nodup)
+    (hs : ∀ r ∈ l, LiveFc2 T ms r.parent ∧ resNewOk r ∧ r.parent.fc.missedHost ≤ r.parent.fc.host.value)
+    (hn : (l.map (·.parent.id)).Nodup)
     (hF : Fresh T ms (l.flatMap Resolution2.created ++ R))
     (hnew : ∀ r ∈ l, ∀ rn, r.res = .renewal rn → rn.newContract.val < curLimit)
     (hp : ms.pool + (l.map resTax).sum < curLimit) :
@@ -146,6 +147,7 @@ theorem total_ress2 {T} (l : List Resolution2) (ms : Mid) (R : List (Kind × Id)
   obtain ⟨r, F, _, _, ep, _⟩ := loop_ress2 pre ms ms_pre _ hc hI
     (fun x h => hs x (List.mem_append_left _ h)) (List.nodup_append.mp hn).1 hF hpre
   have hsa := (hs a (List.mem_append_right _ List.mem_cons_self)).1
+  have hma := (hs a (List.mem_append_right _ List.mem_cons_self)).2.2
   have hsa' : LiveFc2 T ms_pre a.parent := by
     apply hsa.agree r.agree
     rintro (hm | hm)
@@ -160,7 +162,7 @@ theorem total_ress2 {T} (l : List Resolution2) (ms : Mid) (R : List (Kind × Id)
     simp only []
     obtain ⟨m1, h1⟩ := resolveFc2_total hc' r.inv hsa' ResKind.renewal
     rw [h1]
-    have hp1 : m1.pool = ms_pre.pool := (resolveFc2_spec hc' r.inv hsa' h1).2.2.2.2.1
+    have hp1 : m1.pool = ms_pre.pool := (resolveFc2_spec hc' r.inv hsa' hma h1).2.2.2.2.1
     have htax : resTax a = rn.newContract.val / 25 := by unfold resTax; rw [hres]
     obtain ⟨m2, h2, _⟩ := createFc2_total m1 rn.newId
       (hnew a (List.mem_append_right _ List.mem_cons_self) rn hres)
@@ -319,6 +321,7 @@ def fc2Sum (L : Ledger) : Nat := (L.fc2.map (·.fc.val)).sum
 /-- after validation, `applyV2Transaction` returns (all of its errors are Go panics) -/
 theorem v2txn_total {T} {ms : Mid} {t : Txn2} {mw : Nat} {R : List (Kind × Id)}
     (hc : Ctx T ms.base) (hfix : ms.base.child ≥ ms.base.P.ephemeralFix) (hI : Inv T ms)
+    (hm2 : ∀ e ∈ ms.base.fc2, e.fc.missedHost ≤ e.fc.host.value)
     (hF : Fresh T ms (t.created ++ R))
     (hcs : CsOk ms) (hS : sfTot ms ≤ 10000)
     (hroom : ms.pool + scW (wMat ms.base.child) ms + fc2Sum ms.base < curLimit)
@@ -334,7 +337,7 @@ theorem v2txn_total {T} {ms : Mid} {t : Txn2} {mw : Nat} {R : List (Kind × Id)}
   have pSc : ∀ sci ∈ t.scIns, SpendableSc T ms sci.parent := fun sci h => spendable_of_ScIn2Ok hc hI hfix (hsc sci h)
   have pSf : ∀ sfi ∈ t.sfIns, SpendableSf T ms sfi.parent := fun sfi h => spendable_of_SfIn2Ok hc hI hfix (hsf sfi h)
   have pRev := fun r h => rev_of_Rev2Ok hc hI hfix (hrevs r h)
-  have pRes := fun r h => res_of_Res2Ok hc hI (hress r h)
+  have pRes := fun r h => res_of_Res2Ok hc hI hm2 (hress r h)
   unfold Txn2.created at hF
   simp only [List.append_assoc] at hF
   -- 1. siacoin inputs
@@ -465,7 +468,7 @@ theorem v2txn_total {T} {ms : Mid} {t : Txn2} {mw : Nat} {R : List (Kind × Id)}
     obtain ⟨r, hr, he⟩ := List.mem_map.mp hm
     exact (pRev5 r hr).1.not_fresh F5 q hq he.symm)
   -- 7. resolutions
-  have pRes6 : ∀ r ∈ t.ress, LiveFc2 T ms6 r.parent ∧ resNewOk r := by
+  have pRes6 : ∀ r ∈ t.ress, LiveFc2 T ms6 r.parent ∧ resNewOk r ∧ r.parent.fc.missedHost ≤ r.parent.fc.host.value := by
     intro r h
     refine ⟨(live5 _ (pRes r h).1).agree r6.agree ?_, (pRes r h).2⟩
     exact (hress r h).2.1
